@@ -112,7 +112,8 @@ class Run:
 
     def conf(self):
         return {"auth": {"type": "none"}, "rights": {"type": "owner_only"},
-                "storage": {"type": self.stype, "hook": "true"}}
+                "storage": {"type": self.stype, "hook": "true",
+                            "predefined_collections": json.dumps(x_c10.PREDEFINED)}}
 
     def execute(self, base, timeout):
         d = os.path.join(base, self.name)
@@ -268,7 +269,8 @@ def mon_syscalls(run, cwd):
 # ---------------------------------------------------------------------------------------------- the check
 def run(ctx):
     ctx.rule = ("request = one HTTP request of the seeded mix (all 12 methods, success and error exits, 8 REPORT kinds incl. "
-                "free-busy and sync with early unlock, first login, anonymous) run against the real server for storage type "
+                "free-busy and sync with early unlock, every method as the first request of a fresh user with "
+                "[storage] predefined_collections configured, anonymous) run against the real server for storage type "
                 "multifilesystem / multifilesystem_nolock, normally or with an adversary thread taking the lock exclusively at "
                 "every Release point; distinct by (storage type, adversary, method, status, api event stream); non-trivial = "
                 "the request took the storage lock at least once")
@@ -321,7 +323,7 @@ def run(ctx):
     runs = []
     for (name, stype, adv, straced, count, ro), seed in zip(plan, seeds):
         r2 = _random.Random(seed)
-        reqs = [dict(x) for x in setup] + x_c10.gen_requests(r2, count, read_only=ro)
+        reqs = [dict(x) for x in setup] + x_c10.first_login_block(name.replace("_", "")) + x_c10.gen_requests(r2, count, read_only=ro)
         if adv:
             # every read request kind at least once: appended deterministic block
             reqs += fixed_block()
@@ -389,7 +391,14 @@ def evaluate(ctx, runs, base, model_ok, failing_methods):
                 first["api"] = ("api level: %s" % v, replay_of(run, i, api=api))
             fv = mon_files(res["files"])
             if fv and "audit" not in first:
-                first["audit"] = ("audit level: %s" % fv[0], replay_of(run, i, api=api, file_event=fv[1]))
+                off = [f for f in res["files"] if f["t"] == "main" and f["ev"] != "exec" and classify("/F" + f["path"], "/F") in ("data", "cache")
+                       and (f["held"] is None or (f["write"] and f["held"] != "w" and classify("/F" + f["path"], "/F") == "data"))]
+                muts = [f for f in off if f["write"]]
+                text = fv[0] + ("; %d file events outside a sufficient lock in this request, %d of them mutations (first: %s %s)" % (
+                    len(off), len(muts), muts[0]["ev"], muts[0]["path"]) if muts else "")
+                if any(e[0] == "Hook" for e in api) and muts:
+                    text += "; the hook had already run before these writes" if api_index(api, "Hook") < last_unlocked_write(api) else ""
+                first["audit"] = ("audit level: %s" % text, replay_of(run, i, api=api, file_event=fv[1], offending_file_events=off[:12]))
             if rq["method"] in METHODS:
                 cases.append(((METHODS.index(rq["method"]), x_c10.api_to_coq(api)), (True, True, True)))
                 case_src.append((run, i))
@@ -444,6 +453,26 @@ def evaluate(ctx, runs, base, model_ok, failing_methods):
     ctx.extra["monitors_fired"] = sorted(first)
     if failing_methods:
         ctx.notes.append("skeleton check (C10_handlers) fails for: %s" % ", ".join(failing_methods))
+
+
+def api_index(api, kind):
+    for j, e in enumerate(api):
+        if e[0] == kind:
+            return j
+    return len(api)
+
+
+def last_unlocked_write(api):
+    """Index of the last writer operation called while no lock is held (-1 when none)."""
+    held, last = None, -1
+    for j, e in enumerate(api):
+        if e[0] == "Acquire":
+            held = e[1]
+        elif e[0] == "Release":
+            held = None
+        elif e[0] == "Storage" and e[1] in WRITERS and held is None:
+            last = j
+    return last
 
 
 def replay_of(run, i, **kw):
